@@ -86,7 +86,19 @@ class Exporter:
     :param flatten_struct: export `s%a(i)` as an access to the array "s%a".
     '''
 
-    def __init__(self, hooks=None):
+    def __init__(self, hooks=None, functions=False):
+        # functions: give references to user functions (module procedures) in
+        # the right-hand side / subscripts of an assignment or in an IF
+        # condition a meaning: each reference is hoisted, innermost first, into
+        # "call f(args..., tmp)" placed before the statement, where the function
+        # is exported as a subroutine whose last dummy is its result variable
+        # and tmp is a fresh undefined local of the result type.  Exact for
+        # functions that do not modify anything else the statement uses (which
+        # the Fortran standard requires of a function reference).
+        self.functions = functions
+        self._hoist = None      # list receiving the hoisted calls, or None
+        self._temps = [[]]      # per exported routine: declarations of the temporaries
+        self._ntemp = 0
         # hooks: {node class name: callable(exporter, node) -> stmt(s)} for
         # engine-specific nodes (directives, PSyData regions, kernels)
         self.hooks = hooks or {}
@@ -118,6 +130,8 @@ class Exporter:
         if isinstance(node, N.IntrinsicCall):
             return self.icall(node)
         if isinstance(node, N.Call):
+            if self.functions and self._hoist is not None:
+                return self.fcall(node)
             raise Unsupported("function call in expression")
         if isinstance(node, N.ArrayReference):
             return {"k": "aref", "name": node.symbol.name.lower(),
@@ -233,8 +247,27 @@ class Exporter:
         if cname in self.hooks:
             return self.hooks[cname](self, node)
         if isinstance(node, N.Assignment):
-            return {"k": "assign", "lhs": self.expr(node.lhs),
-                    "rhs": self.expr(node.rhs)}
+            if not self.functions:
+                return {"k": "assign", "lhs": self.expr(node.lhs),
+                        "rhs": self.expr(node.rhs)}
+            saved, self._hoist = self._hoist, []
+            try:
+                st = {"k": "assign", "lhs": self.expr(node.lhs),
+                      "rhs": self.expr(node.rhs)}
+                pre = self._hoist
+            finally:
+                self._hoist = saved
+            return pre + [st] if pre else st
+        if self.functions and isinstance(node, N.IfBlock):
+            saved, self._hoist = self._hoist, []
+            try:
+                cond = self.expr(node.condition)
+                pre = self._hoist
+            finally:
+                self._hoist = saved
+            st = {"k": "if", "cond": cond, "then": self.body(node.if_body),
+                  "else": self.body(node.else_body) if node.else_body else []}
+            return pre + [st] if pre else st
         if isinstance(node, N.Loop):
             return {"k": "loop", "var": node.variable.name.lower(),
                     "lo": self.expr(node.start_expr),
@@ -358,6 +391,38 @@ class Exporter:
         return {"k": "call", "name": name,
                 "args": [self.expr(a) for a in node.arguments]}
 
+    def fcall(self, node):
+        '''A reference to a user function inside an expression: hoisted call,
+        returns the reference to the temporary holding the result.'''
+        _, S = _imports()
+        name = node.routine.name.lower()
+        if any(n is not None for n in node.argument_names):
+            raise Unsupported("named argument in function reference")
+        target = self._find_routine(node, name)
+        if target is None or target.return_symbol is None:
+            raise Unsupported(f"reference to unknown function {name}")
+        rsym = target.return_symbol
+        if not isinstance(rsym.datatype, S.ScalarType):
+            raise Unsupported("function result is not an intrinsic scalar")
+        hoist = self._hoist
+        args = [self.expr(a) for a in node.arguments]     # inner references first
+        if name not in self.subs:
+            if name in self._busy:
+                raise Unsupported("recursive call")
+            self._busy.add(name)
+            self._hoist = None
+            try:
+                self.subs[name] = self.sub(target)
+            finally:
+                self._busy.discard(name)
+                self._hoist = hoist
+        self._ntemp += 1
+        tmp = f"{name}#r{self._ntemp}"
+        self._temps[-1].append({"name": tmp, "ty": _ty(rsym.datatype), "dims": []})
+        hoist.append({"k": "call", "name": name,
+                      "args": args + [{"k": "ref", "name": tmp}]})
+        return {"k": "ref", "name": tmp}
+
     @staticmethod
     def _find_routine(node, name):
         N, _ = _imports()
@@ -394,6 +459,18 @@ class Exporter:
             formals.append({"name": a.name.lower(), "ty": _ty(a.datatype),
                             "lo": lo, "rank": rank})
         prelude = []
+        rsym = routine.return_symbol
+        if rsym is not None:
+            if not self.functions:
+                raise Unsupported("call to a function")
+            argset.add(id(rsym))
+            formals.append({"name": rsym.name.lower(), "ty": _ty(rsym.datatype),
+                            "lo": [], "rank": 0})
+        self._temps.append([])
+        try:
+            body = self.body(routine)
+        finally:
+            temps = self._temps.pop()
         for sym in self._all_symbols(routine):
             if id(sym) in argset or not isinstance(sym, S.DataSymbol):
                 continue
@@ -413,8 +490,8 @@ class Exporter:
                 if not sym.is_constant and sym.is_static is False:
                     pass
             locals_.append(d)
-        return {"formals": formals, "locals": locals_,
-                "body": prelude + self.body(routine)}
+        return {"formals": formals, "locals": locals_ + temps,
+                "body": prelude + body}
 
     @staticmethod
     def _all_symbols(routine):
@@ -533,6 +610,9 @@ class Exporter:
         '''{"decls", "body", "subs"} of a top-level routine.'''
         decls, prelude = self.decls(routine)
         body = prelude + self.body(routine)
+        for t in self._temps[-1]:       # results of hoisted function references
+            decls.append({"name": t["name"], "ty": t["ty"], "dims": [],
+                          "init": "poison", "arg": False})
         return {"decls": decls, "body": body, "subs": dict(self.subs)}
 
 
